@@ -209,6 +209,11 @@ example : fatalDesc exWorld.c (.keyUpdate 2) = some 47 ∧ fatalDesc exWorld.s (
     fatalDesc { exWorld.c with hasKeypair := false } (.certRequest 5 false) = some 10 ∧
     fatalDesc { exWorld.c with hbSupported := false } (.heartbeat 1 [1] 16) = some 10 := by decide
 
+/-- the hypotheses are satisfiable: a client whose next record is KeyUpdate with request byte 2 -/
+example : (runLocal (.read none 0) ⟨exWorld.c, ⟨[⟨0, .keyUpdate 2⟩], false⟩, {}⟩).1 = .err (.localAlert 47) ∧
+    (runLocal (.read none 0) ⟨exWorld.c, ⟨[⟨0, .keyUpdate 2⟩], false⟩, {}⟩).2.out.recs = [⟨0, .alert 2 47⟩] := by
+  decide +kernel
+
 /-- a NewSessionTicket sent by the CLIENT is fatal for a TLS 1.3 server, while a client stores it -/
 example : fatalDesc exWorld.s .newSessionTicket = some 10 ∧ fatalDesc exWorld.c .newSessionTicket = none := by decide
 example : (read none 0 ⟨exWorld.c, ⟨[⟨0, .newSessionTicket⟩], false⟩, {}⟩).2.me.tickets = 1 := by decide +kernel
